@@ -254,6 +254,9 @@ class World:
                             w.log.append(('resumed', hid, eid, -1, 'EXC:' + type(exc).__name__, None))
                     elif op == 'stop':
                         event.stop()
+                    elif op == 'cstop':
+                        # stop() on this component itself: it is registered, its root runs - but it was never run itself
+                        self.stop(st[1]) if st[1] is not None else self.stop()
                     elif op == 'mstop':
                         w.log.append(('stopcall', hid, eid, st[1]))
                         try:
@@ -300,6 +303,8 @@ class World:
                                 w.log.append(('val', hid, eid, v))
                             w.log.append(('exit', hid, eid, 'ret'))
                             return v
+                        elif op == 'cstop':
+                            self.stop(st[1]) if st[1] is not None else self.stop()
                         elif op == 'mstop':
                             w.log.append(('stopcall', hid, eid, st[1]))
                             self.root.stop(st[1]) if st[1] is not None else self.root.stop()
